@@ -7,3 +7,11 @@ import NitroVerif.Props.C16
 import NitroVerif.Props.C17
 import NitroVerif.Props.C08
 import NitroVerif.Props.C06Handoff
+import NitroVerif.Props.C01
+import NitroVerif.Props.C02
+import NitroVerif.Props.C06
+import NitroVerif.Props.C09
+import NitroVerif.Props.C10
+import NitroVerif.Props.C05
+import NitroVerif.Props.C11
+import NitroVerif.Props.C12
